@@ -61,3 +61,15 @@ func (c *Channel) VerifWaiting() int {
 	defer c.mu.RUnlock()
 	return c.waiting
 }
+
+// VerifSealUnchecked encrypts ptext under the session's outbound cipher with the given counter, whatever the
+// handshake state: what a party that holds the session keys can put on the wire without following the protocol.
+// It returns nil if the outbound cipher does not exist yet.
+func (s *Session) VerifSealUnchecked(ptext []byte, counter uint32) []byte {
+	if s.cipherOut == nil {
+		return nil
+	}
+	msg := newMessage(counter)
+	out := append([]byte{}, msg...)
+	return s.cipherOut.Encrypt(out, uint64(counter), msg, ptext)
+}
